@@ -136,7 +136,7 @@ fn main() {
     }
     let quick = ctx.quick();
     let sigma10: Vec<&str> = vec!["a", "A", "0", "7", ".", "-", "+", "é", "٣", "€"];
-    let l = if quick { 3 } else { 4 };
+    let l = if quick { 3 } else { 5 };
     let s1 = for_each_string(&sigma10, l, |x, _n, st| explore_text(&ctx, x, st));
     // special texts: long zero-padded digit runs around the integer widths, long text, separators only
     let specials: Vec<String> = ["00012345678901234567890123", "0000000000000000000000", "18446744073709551616", "018446744073709551615", "04294967296", "4294967296", "build/00012345678901234567890123/x",
